@@ -296,6 +296,11 @@ fn arrays_extra() -> Vec<V> {
         V::Arr(vec![s("é"), s("")]),
         // incomparable elements that are never neighbours (seeded change C17-5: comparability was
         // only tested between adjacent input elements)
+        // elements that print as nothing, in front (seeded change C17-7: `join` emitted the
+        // separator only once something had been written)
+        V::Arr(vec![s(""), s("a")]),
+        V::Arr(vec![V::None, s("a"), s("")]),
+        V::Arr(vec![s(""), s(""), s("x")]),
         V::Arr(vec![V::I64(1), V::None, s("a")]),
         V::Arr(vec![s("a"), V::I64(1), s("b"), V::I64(2)]),
         V::Arr(vec![V::Arr(vec![V::I64(2), s("a")]), V::Arr(vec![V::I64(1)]), V::Arr(vec![V::I64(2), V::I64(1)])]),
